@@ -73,6 +73,11 @@ type runner struct {
 
 func (rn *runner) cbFor(id string) func(k, v string) {
 	return func(k, v string) {
+		if len(k) > 1 && k[0] == 'b' {
+			if _, err := strconv.Atoi(k[1:]); err == nil {
+				return // ballast entries are handled through aggregated Bulk* observations only
+			}
+		}
 		t := curThread()
 		rn.rec.add(&Event{Ev: "evict", T: t, Cb: id, K: k, V: v})
 		// re-entrant callbacks call back into the cache (C06, C13)
@@ -246,6 +251,15 @@ func (rn *runner) cacheCall(t int, op SeqOp, e *Event) {
 	case "BulkStore":
 		for i := op.Lo; i <= op.Hi; i++ {
 			c.SetForever(balKey(i), balVal(i))
+		}
+	case "BulkDelete":
+		for i := op.Lo; i <= op.Hi; i++ {
+			if v, ok := c.GetAndDelete(balKey(i)); ok {
+				e.N++
+				if v == balVal(i) {
+					e.X++
+				}
+			}
 		}
 	case "BulkLoad":
 		for i := op.Lo; i <= op.Hi; i++ {
